@@ -63,6 +63,7 @@ type Contract struct {
 	Allocs   []string
 	Modifies []string
 	Loops    map[int]*LoopSpec
+	InlinedLoops map[string]map[int]*LoopSpec // loops of callees that are inlined into this function: "loop pkg.F$1/0 invariant ..."
 	Trusted  bool
 	Inlines  []string // callees (by key) whose bodies are executed here instead of using their contracts
 	MayExit  bool // every path may end in a call that does not return (os.Exit): no reachable return is demanded
@@ -72,6 +73,19 @@ type Contract struct {
 	Inline   bool
 	NoSafety bool
 	Used     bool
+}
+
+func (c *Contract) inlinedLoop(key string, i int) *LoopSpec {
+	if c.InlinedLoops == nil {
+		c.InlinedLoops = map[string]map[int]*LoopSpec{}
+	}
+	if c.InlinedLoops[key] == nil {
+		c.InlinedLoops[key] = map[int]*LoopSpec{}
+	}
+	if c.InlinedLoops[key][i] == nil {
+		c.InlinedLoops[key][i] = &LoopSpec{}
+	}
+	return c.InlinedLoops[key][i]
 }
 
 func (c *Contract) loop(i int) *LoopSpec {
@@ -191,9 +205,20 @@ func parseContractFile(P *Program, pkg *packages.Package, f *ast.File, name stri
 				cur.Modifies = append(cur.Modifies, parseNameList(rest)...)
 			case "loop":
 				ns, r2 := splitWord(rest)
-				n, err := strconv.Atoi(ns)
-				if err != nil {
-					return fail(err)
+				lp := (*LoopSpec)(nil)
+				if k := strings.LastIndex(ns, "/"); k > 0 {
+					// a loop of a callee inlined here: pkg.Func$1/0
+					n, err := strconv.Atoi(ns[k+1:])
+					if err != nil {
+						return fail(err)
+					}
+					lp = cur.inlinedLoop(ns[:k], n)
+				} else {
+					n, err := strconv.Atoi(ns)
+					if err != nil {
+						return fail(err)
+					}
+					lp = cur.loop(n)
 				}
 				w2, r3 := splitWord(r2)
 				switch w2 {
@@ -202,17 +227,17 @@ func parseContractFile(P *Program, pkg *packages.Package, f *ast.File, name stri
 					if err != nil {
 						return fail(err)
 					}
-					cur.loop(n).Invariants = append(cur.loop(n).Invariants, cl)
+					lp.Invariants = append(lp.Invariants, cl)
 				case "decreases":
 					cl, err := parseClause(r3, line)
 					if err != nil {
 						return fail(err)
 					}
-					cur.loop(n).Decreases = &cl
+					lp.Decreases = &cl
 				case "modifies":
-					cur.loop(n).Modifies = append(cur.loop(n).Modifies, parseNameList(r3)...)
+					lp.Modifies = append(lp.Modifies, parseNameList(r3)...)
 				case "allocs":
-					cur.loop(n).Allocs = append(cur.loop(n).Allocs, parseNameList(r3)...)
+					lp.Allocs = append(lp.Allocs, parseNameList(r3)...)
 				default:
 					return fail(fmt.Errorf("unknown loop clause %q", w2))
 				}
